@@ -26,7 +26,9 @@
    A read in [read...] is its bytes, or [bytes; 1] when the scripted connection (client kind 3)
    returned them together with os.ErrDeadlineExceeded; ([]; 1) is a scripted (0, deadline) read.
    Client kinds: 0 lock-step, 1 back to back (net.Pipe), 2 everything buffered beforehand,
-   3 scripted reads with deadline errors and an enforced write deadline. *)
+   3 scripted reads with deadline errors and an enforced write deadline.
+   Status 95: the harness process died while the case ran (the case was run in a child process;
+   the model never says 95, C16 judges it a violation). *)
 Require Import MB.GoSem MB.Val MB.Entry MB.Spec MB.PacketModel MB.ServerModel MB.ServerSpec.
 From Coq Require Import String.
 Notation length := List.length (only parsing).
@@ -360,14 +362,21 @@ Definition verdict_two_C16 (a : list val) (out : val) : N :=
   end.
 
 (* ---------- the table of this layer ---------- *)
+(* srv_conn and srv_two cases may carry one more argument: the configuration of the server they ran
+   on, as a bit mask of the callbacks that were set (1 OnErrorFunc, 2 OnCloseConnFunc,
+   4 OnAcceptConnFunc, 8 OnServeFunc; without it: OnErrorFunc only).  It identifies the case for a
+   replay; neither the model nor the properties depend on it. *)
+Definition drop_cfg (n : nat) (a : list val) : list val :=
+  match skipn n a with [VI _] => firstn n a | _ => a end.
+
 Open Scope string_scope.
 Definition table_server : list entry :=
   [ {| e_name := "srv_asm"; e_run := run_asm;
        e_verdict := fun p a o => if (p =? 15)%N then verdict_asm_C15 a o
                                  else if (p =? 16)%N then verdict_asm_C16 a o else NOT_JUDGED |};
-    {| e_name := "srv_conn"; e_run := run_conn;
-       e_verdict := fun p a o => if (p =? 15)%N then verdict_conn_C15 a o
-                                 else if (p =? 16)%N then verdict_conn_C16 a o else NOT_JUDGED |};
-    {| e_name := "srv_two"; e_run := run_two;
-       e_verdict := fun p a o => if (p =? 16)%N then verdict_two_C16 a o else NOT_JUDGED |}
+    {| e_name := "srv_conn"; e_run := fun a => run_conn (drop_cfg 4 a);
+       e_verdict := fun p a o => if (p =? 15)%N then verdict_conn_C15 (drop_cfg 4 a) o
+                                 else if (p =? 16)%N then verdict_conn_C16 (drop_cfg 4 a) o else NOT_JUDGED |};
+    {| e_name := "srv_two"; e_run := fun a => run_two (drop_cfg 5 a);
+       e_verdict := fun p a o => if (p =? 16)%N then verdict_two_C16 (drop_cfg 5 a) o else NOT_JUDGED |}
   ].
